@@ -641,6 +641,7 @@ class C2Profile(ConfigBlock):
                         "CreateRemoteThread",
                         "NtQueueApcThread",
                         "NtQueueApcThread-s",
+                        "NtQueueApcThread_s",  # spelling of the InjectExecutor enum member used by BeaconConfig
                         "RtlCreateUserThread",
                     ]:
                         exec_options._enable(item.lower().replace("-", "_"), True)
